@@ -32,6 +32,7 @@ package sx
 
 import (
 	"fmt"
+	"os"
 	"go/constant"
 	"go/token"
 	"go/types"
@@ -260,8 +261,14 @@ func inlineFunc(fn *ssa.Function, parent *ssa.Function, policy InlinePolicy) *In
 	}
 	nf.Blocks = b.blocks
 	prune(nf)
-	thread(nf)
-	prune(nf)
+	for i := 0; i < 6; i++ {
+		t := thread(nf)
+		prune(nf)
+		simplifyPhis(nf, nil)
+		if !mergeConts(nf) && !t {
+			break
+		}
+	}
 	finish(nf)
 	return res
 }
@@ -634,6 +641,26 @@ func evalCond(v ssa.Value, blk *ssa.BasicBlock, edge int, depth int) (val bool, 
 			return !b, ok
 		}
 	case *ssa.BinOp:
+		if blk != nil && x.Block() == blk {
+			// comparison of two integer constants
+			cv := func(v ssa.Value) (constant.Value, bool) {
+				if ph, ok := v.(*ssa.Phi); ok && ph.Block() == blk {
+					v = ph.Edges[edge]
+				}
+				if c, ok := v.(*ssa.Const); ok && c.Value != nil && c.Value.Kind() == constant.Int {
+					return c.Value, true
+				}
+				return nil, false
+			}
+			if a, ok := cv(x.X); ok {
+				if c, ok := cv(x.Y); ok {
+					switch x.Op {
+					case token.EQL, token.NEQ, token.LSS, token.LEQ, token.GTR, token.GEQ:
+						return constant.Compare(a, x.Op, c), true
+					}
+				}
+			}
+		}
 		if (x.Op == token.EQL || x.Op == token.NEQ) && (blk == nil || x.Block() == blk) {
 			isNil := func(v ssa.Value) (bool, bool) { // (is nil, known)
 				if ph, ok := v.(*ssa.Phi); ok && blk != nil && ph.Block() == blk {
@@ -642,9 +669,14 @@ func evalCond(v ssa.Value, blk *ssa.BasicBlock, edge int, depth int) (val bool, 
 				if c, ok := v.(*ssa.Const); ok && c.Value == nil {
 					return true, true
 				}
-				switch v.(type) {
+				switch x := v.(type) {
 				case *ssa.MakeInterface, *ssa.Alloc, *ssa.MakeChan, *ssa.MakeMap, *ssa.MakeSlice, *ssa.MakeClosure, *ssa.Function:
 					return false, true
+				case *ssa.UnOp:
+					// a package-level error variable that is assigned once, in its package's initialiser, from a constructor call
+					if g, ok := x.X.(*ssa.Global); ok && x.Op == token.MUL && NonNilGlobal(g) {
+						return false, true
+					}
 				}
 				return false, false
 			}
@@ -675,9 +707,100 @@ func evalCond(v ssa.Value, blk *ssa.BasicBlock, edge int, depth int) (val bool, 
 
 // thread redirects the predecessors of a continuation block that only
 // tests a phi which that predecessor fixes to a constant.
-func thread(fn *ssa.Function) {
+// mergeConts splices a block into the continuation (or threaded copy) that jumps to it when that is its only
+// predecessor, so that a test of an expanded call's result that the source has in the next block can be threaded.
+func mergeConts(fn *ssa.Function) bool {
+	any := false
+	for again := true; again; {
+		again = false
+		for _, k := range fn.Blocks {
+			if len(k.Instrs) == 0 || len(k.Succs) != 1 || len(k.Preds) < 2 {
+				continue
+			}
+			if !strings_hasPrefix(k.Comment, "inline.cont:") {
+				continue
+			}
+			j := k.Succs[0]
+			if j == k || len(j.Preds) != 1 || j == fn.Blocks[0] || j == fn.Recover {
+				continue
+			}
+			if _, isJ := k.Instrs[len(k.Instrs)-1].(*ssa.Jump); !isJ {
+				continue
+			}
+			if _, isPhi := j.Instrs[0].(*ssa.Phi); isPhi {
+				continue
+			}
+			k.Instrs = append(k.Instrs[:len(k.Instrs)-1:len(k.Instrs)-1], j.Instrs...)
+			for _, in := range j.Instrs {
+				setUnexported(in, "block", k)
+			}
+			k.Succs = j.Succs
+			for _, s := range j.Succs {
+				for i, p := range s.Preds {
+					if p == j {
+						s.Preds[i] = k
+					}
+				}
+			}
+			j.Instrs, j.Succs, j.Preds = nil, nil, nil
+			for i, b := range fn.Blocks {
+				if b == j {
+					fn.Blocks = append(fn.Blocks[:i:i], fn.Blocks[i+1:]...)
+					break
+				}
+			}
+			again, any = true, true
+			break
+		}
+	}
+	return any
+}
+
+// backEdgeTargets: blocks entered by a DFS back edge (loop headers of a reducible graph).
+func backEdgeTargets(fn *ssa.Function) map[*ssa.BasicBlock]bool {
+	out := map[*ssa.BasicBlock]bool{}
+	state := map[*ssa.BasicBlock]int{}
+	var dfs func(b *ssa.BasicBlock)
+	dfs = func(b *ssa.BasicBlock) {
+		state[b] = 1
+		for _, s := range b.Succs {
+			switch state[s] {
+			case 0:
+				dfs(s)
+			case 1:
+				out[s] = true
+			}
+		}
+		state[b] = 2
+	}
+	if len(fn.Blocks) > 0 {
+		dfs(fn.Blocks[0])
+	}
+	return out
+}
+
+// madeHere: the phi was introduced by this file (a result of an expanded call, a threading repair, or a copy of
+// one), as opposed to a copy of a phi of the source program.
+func madeHere(ph *ssa.Phi) bool {
+	var cur ssa.Instruction = ph
+	for i := 0; i < 16; i++ {
+		o, ok := origOf[cur]
+		if !ok {
+			return false
+		}
+		if _, isPhi := o.(*ssa.Phi); !isPhi {
+			return true
+		}
+		cur = o
+	}
+	return false
+}
+
+func thread(fn *ssa.Function) bool {
+	any := false
 	for changed, rounds := true, 0; changed && rounds < 8; rounds++ {
 		changed = false
+		headers := backEdgeTargets(fn)
 		for _, k := range fn.Blocks {
 			if len(k.Preds) < 2 || len(k.Instrs) == 0 {
 				continue
@@ -693,17 +816,29 @@ func thread(fn *ssa.Function) {
 				switch x := in.(type) {
 				case *ssa.Phi:
 					nphi++
+					// only phis this file made (results of an expanded call, threading repairs): a source phi
+					// is a loop or branch of the program itself, and peeling it would change the shapes rules match
+					// a phi at a loop header is the loop itself: threading its entry edge would peel the loop and
+					// change the shapes the rules match; any other phi (a flag set on some branches) is fair game
+					if !madeHere(x) && headers[k] {
+						simple = false
+					}
 				case *ssa.UnOp:
 					if x.Op != token.NOT {
 						simple = false
 					}
 				case *ssa.BinOp:
-					if x.Op != token.EQL && x.Op != token.NEQ {
+					switch x.Op {
+					case token.EQL, token.NEQ, token.LSS, token.LEQ, token.GTR, token.GEQ:
+					default:
 						simple = false
 					}
 				default:
 					simple = false
 				}
+			}
+			if os.Getenv("GLB_THREAD_DEBUG") != "" {
+				fmt.Fprintf(os.Stderr, "thread? %s block %q preds=%d simple=%v nphi=%d\n", fn.Name(), k.Comment, len(k.Preds), simple, nphi)
 			}
 			if !simple || nphi == 0 {
 				continue
@@ -727,6 +862,9 @@ func thread(fn *ssa.Function) {
 				if v, known := evalCond(iff.Cond, k, i, 0); known {
 					dec = append(dec, decided{i, v})
 				}
+			}
+			if os.Getenv("GLB_THREAD_DEBUG") != "" {
+				fmt.Fprintf(os.Stderr, "   decided %v cond=%s\n", dec, iff.Cond)
 			}
 			if len(dec) == 0 {
 				continue
@@ -856,10 +994,11 @@ func thread(fn *ssa.Function) {
 				k.Succs = nil
 			}
 			repairUses(fn, k, fresh, defs, perDef)
-			changed = true
+			changed, any = true, true
 			break // block list changed: restart
 		}
 	}
+	return any
 }
 
 // repairUses rewrites the uses, outside k and its threaded copies, of values
@@ -896,7 +1035,7 @@ func repairUses(fn *ssa.Function, k *ssa.BasicBlock, fresh [2]*ssa.BasicBlock, d
 				atEnd[b] = d
 				return d
 			case 1:
-				atEnd[b] = d // cycle guard; overwritten below
+				// no memo while the chain is being followed: a cycle always contains a join, whose phi is memoised first
 				v := read(b.Preds[0])
 				atEnd[b] = v
 				return v
@@ -987,6 +1126,68 @@ func repairUses(fn *ssa.Function, k *ssa.BasicBlock, fresh [2]*ssa.BasicBlock, d
 }
 
 func strings_hasPrefix(s, p string) bool { return len(s) >= len(p) && s[:len(p)] == p }
+
+func origBlocks(fn *ssa.Function) map[ssa.Instruction]bool {
+	m := map[ssa.Instruction]bool{}
+	for _, b := range fn.Blocks {
+		for _, in := range b.Instrs {
+			if ph, ok := in.(*ssa.Phi); ok {
+				m[ph] = true
+			}
+		}
+	}
+	return m
+}
+
+// simplifyPhis removes the phis this file introduced (continuation and
+// threading phis) that have a single distinct operand: uses read the operand
+// directly, so value patterns (x & mask[n], a field load) are matched as in
+// the callee's own body. Phis copied from source functions are left alone.
+func simplifyPhis(fn *ssa.Function, keep map[ssa.Instruction]bool) {
+	for again := true; again; {
+		again = false
+		for _, b := range fn.Blocks {
+			for i := 0; i < len(b.Instrs); i++ {
+				ph, ok := b.Instrs[i].(*ssa.Phi)
+				if !ok {
+					break
+				}
+				if !madeHere(ph) && len(ph.Edges) > 1 {
+					continue // a source phi that still merges
+				}
+				var same ssa.Value
+				trivial := true
+				for _, e := range ph.Edges {
+					if e == ssa.Value(ph) || e == same {
+						continue
+					}
+					if same != nil {
+						trivial = false
+						break
+					}
+					same = e
+				}
+				if !trivial || same == nil {
+					continue
+				}
+				for _, bb := range fn.Blocks {
+					for _, in := range bb.Instrs {
+						var buf [8]*ssa.Value
+						for _, op := range in.Operands(buf[:0]) {
+							if *op == ssa.Value(ph) {
+								*op = same
+							}
+						}
+					}
+				}
+				b.Instrs = append(b.Instrs[:i:i], b.Instrs[i+1:]...)
+				i--
+				again = true
+			}
+		}
+	}
+	_ = keep
+}
 
 // finish numbers blocks and registers, rebuilds referrers and the dominator tree.
 func finish(fn *ssa.Function) {
@@ -1155,6 +1356,12 @@ func buildDom(fn *ssa.Function) {
 // Verify checks the structural invariants the analyses of this package rely
 // on; it returns a description of the first problem found, or "".
 func Verify(fn *ssa.Function) string {
+	present := map[ssa.Instruction]bool{}
+	for _, b := range fn.Blocks {
+		for _, in := range b.Instrs {
+			present[in] = true
+		}
+	}
 	for i, b := range fn.Blocks {
 		if b.Index != i {
 			return fmt.Sprintf("block %d has Index %d", i, b.Index)
@@ -1217,6 +1424,9 @@ func Verify(fn *ssa.Function) string {
 				}
 				switch d := (*op).(type) {
 				case ssa.Instruction:
+					if !present[d] {
+						return fmt.Sprintf("block %d: %s uses %s = %s (block %q), which is not an instruction of the function (removed or never inserted)", i, in, (*op).Name(), d.String(), d.Block().Comment)
+					}
 					if d.Block() == nil || d.Block().Parent() != fn {
 						return fmt.Sprintf("block %d: %s uses %s of another function", i, in, (*op).Name())
 					}
@@ -1237,4 +1447,76 @@ func Verify(fn *ssa.Function) string {
 		}
 	}
 	return ""
+}
+
+var globalStores map[*ssa.Program]map[*ssa.Global][]*ssa.Store
+
+// NonNilGlobal: g is written exactly once in the whole program, by its own
+// package's initialiser, with the result of errors.New / fmt.Errorf or a
+// fresh allocation: a load of g after initialisation is never nil.
+func NonNilGlobal(g *ssa.Global) bool {
+	if g == nil || g.Pkg == nil {
+		return false
+	}
+	prog := g.Pkg.Prog
+	if globalStores == nil {
+		globalStores = map[*ssa.Program]map[*ssa.Global][]*ssa.Store{}
+	}
+	m, ok := globalStores[prog]
+	if !ok {
+		m = map[*ssa.Global][]*ssa.Store{}
+		var scan func(fn *ssa.Function)
+		scan = func(fn *ssa.Function) {
+			for _, b := range fn.Blocks {
+				for _, in := range b.Instrs {
+					if st, ok := in.(*ssa.Store); ok {
+						if gg, ok := st.Addr.(*ssa.Global); ok {
+							m[gg] = append(m[gg], st)
+						}
+					}
+				}
+			}
+			for _, a := range fn.AnonFuncs {
+				scan(a)
+			}
+		}
+		for _, pkg := range prog.AllPackages() {
+			for _, mem := range pkg.Members {
+				switch x := mem.(type) {
+				case *ssa.Function:
+					scan(x)
+				case *ssa.Type:
+					for _, t := range []types.Type{x.Type(), types.NewPointer(x.Type())} {
+						ms := prog.MethodSets.MethodSet(t)
+						for i := 0; i < ms.Len(); i++ {
+							if f := prog.MethodValue(ms.At(i)); f != nil && f.Pkg == pkg {
+								scan(f)
+							}
+						}
+					}
+				}
+			}
+		}
+		globalStores[prog] = m
+	}
+	sts := m[g]
+	if len(sts) != 1 {
+		return false
+	}
+	st := sts[0]
+	if OrigFunc(st.Parent()).Name() != "init" || OrigFunc(st.Parent()).Pkg != g.Pkg {
+		return false
+	}
+	v := st.Val
+	if mi, ok := v.(*ssa.MakeInterface); ok {
+		_ = mi
+		return true
+	}
+	if c, ok := v.(*ssa.Call); ok {
+		switch CalleeName(c) {
+		case "errors.New", "fmt.Errorf":
+			return true
+		}
+	}
+	return false
 }
